@@ -62,10 +62,12 @@ def _bytes_of(v):
 
 
 def _viol(kind, detail, task, extra=None):
-    sig = {"kind": kind, "driver": task["driver"], "follow": list(task["follow"]), "len_class": _lenclass(task["payload"])}
+    sig = {"kind": kind, "driver": task["driver"], "follow": list(task["follow"]), "len_class": _lenclass(task["payload"]) if not task.get("biglen") else f"{task['biglen']} bytes"}
+    if task.get("nested"):
+        sig["target"] = "below a group whose name re-appears in the path"
     if extra:
         sig.update(extra)
-    return {"sig": sig, "what": detail, "input": {"driver": task["driver"], "follow": list(task["follow"]), "payload": task["payload"].hex(), "seed": task.get("seed", 0), "second": task["second"].hex() if task.get("second") is not None else None}}
+    return {"sig": sig, "what": detail, "input": {"driver": task["driver"], "follow": list(task["follow"]), "payload": task["payload"].hex(), "seed": task.get("seed", 0), "second": task["second"].hex() if task.get("second") is not None else None, "biglen": task.get("biglen"), "nested": bool(task.get("nested"))}}
 
 
 def _lenclass(p):
@@ -103,6 +105,14 @@ def run_case(task):
 
     drv, payload, follow = task["driver"], task["payload"], task["follow"]
     names = [("f.bin", "emb"), ("data.dat", "blob"), ("x", "y")][task.get("seed", 0) % 3]
+    if task.get("biglen"):
+        # larger than common I/O chunk sizes; the last byte breaks the pattern so that a hash of a prefix differs
+        n = task["biglen"]
+        payload = (bytes(range(256)) * (n // 256 + 1))[: n - 1] + b"\x5a"
+    target = f"/{names[1]}"
+    if task.get("nested"):
+        # a group name re-appearing deeper in the path
+        target = f"/{names[1]}/proc/{names[1]}/{names[0].split('.')[0]}"
     d = env.fresh_dir("p")
     src = Path(d) / names[0]
     src.write_bytes(payload)
@@ -112,7 +122,9 @@ def run_case(task):
         mc = c.mc
         before = contexp.user_view(mc)
         try:
-            pack_file(mc, src, target=f"/{names[1]}")
+            if task.get("nested"):
+                mc.require_group(target.rsplit("/", 1)[0])
+            pack_file(mc, src, target=target)
             stored = True
         except Exception as e:
             stored = False
@@ -134,7 +146,7 @@ def run_case(task):
                     return _viol("marker-partial", "loud error but something was stored", task), nck
                 return None, nck
             return _viol("embed-failed", f"pack_file raised {err}", task), nck
-        tracked = [f"/{names[1]}"]
+        tracked = [target]
         expect = {tracked[0]: payload}
         v = check_node(mc, tracked[0], payload, task, "right after embedding")
         if v:
@@ -173,6 +185,20 @@ def run_case(task):
                 c.mc.move(tracked[0], dst)
                 expect[dst] = expect.pop(tracked[0])
                 tracked[0] = dst
+            elif op in ("gcopy", "gmove"):
+                # the whole top-level group that contains the embedded file
+                top = "/" + tracked[0].strip("/").split("/")[0]
+                dst = f"/g{op}{i}"
+                (c.mc.copy if op == "gcopy" else c.mc.move)(top, dst)
+                for t in list(tracked):
+                    if t.startswith(top + "/"):
+                        nt = dst + t[len(top) :]
+                        if op == "gcopy":
+                            tracked.append(nt)
+                            expect[nt] = expect[t]
+                        else:
+                            tracked[tracked.index(t)] = nt
+                            expect[nt] = expect.pop(t)
             elif op == "replace":
                 # delete the node and embed different bytes at the same path
                 newp = bytes((b + 1) & 0xFF for b in expect[tracked[0]]) or b"\x01"
@@ -241,6 +267,14 @@ def tasks_for(tier, seed):
         for p in rep:
             for f in chains:
                 out.append({"driver": drv, "payload": p, "follow": list(f), "seed": seed})
+        # files larger than common I/O chunk sizes
+        for n in (1048576, 1048577, 3145733) if tier == "quick" else (65536, 65537, 1048575, 1048576, 1048577, 2097153, 3145733, 8388609):
+            for f in ([], ["copy"]) if drv == "h5" or tier != "quick" else ([],):
+                out.append({"driver": drv, "payload": b"big", "biglen": n, "follow": list(f), "seed": seed})
+        # embedded below a group whose name re-appears deeper in the path; the whole group is copied / moved / merged
+        for p in rep[:7]:
+            for f in (["gcopy"], ["gmove"], ["B", "gcopy"], ["B", "gmove", "R"], ["gcopy", "merge"], ["merge"], ["B", "attr", "merge"]):
+                out.append({"driver": drv, "payload": p, "follow": list(f), "seed": seed, "nested": True})
         # the same source path embedded twice with different content of equal length and unchanged mtime
         pairs = [(bytes([i]), bytes([i ^ 0xFF])) for i in range(256) if bytes([i]) != MARKER and bytes([i ^ 0xFF]) != MARKER]
         pairs += [(b"\x00" * n, b"\xff" * n) for n in LENGTHS if n >= 2]
@@ -285,5 +319,5 @@ def run(tier, seed):
 def replay(data):
     worker_init()
     inp = data["input"]
-    v, _ = run_case({"driver": inp["driver"], "payload": bytes.fromhex(inp["payload"]), "follow": inp["follow"], "seed": inp.get("seed", 0), "second": bytes.fromhex(inp["second"]) if inp.get("second") is not None else None})
+    v, _ = run_case({"driver": inp["driver"], "payload": bytes.fromhex(inp["payload"]), "follow": inp["follow"], "seed": inp.get("seed", 0), "second": bytes.fromhex(inp["second"]) if inp.get("second") is not None else None, "biglen": inp.get("biglen"), "nested": inp.get("nested")})
     return v
